@@ -26,7 +26,7 @@ from pathlib import Path
 
 REPO = Path(os.environ.get("VERIF_REPO", "/repo"))
 SRC = REPO / "src/frequenz/sdk"
-OUT = Path(__file__).resolve().parent.parent / "coq/gen/Extracted.v"
+OUT = Path(os.environ.get("VERIF_COQ_DIR", str(Path(__file__).resolve().parent.parent / "coq"))) / "gen/Extracted.v"
 
 
 class Unsupported(Exception):
